@@ -189,7 +189,11 @@ impl SampleStreamSource {
 
         // One producer at a time: two concurrent pushes would reserve the same slot.
         // Only producers take this lock, so the receiver never delays a send.
+        #[cfg(rustrtc_verif)]
+        crate::verif::sched("src_lock");
         let _push_guard = self.push_lock.lock();
+        #[cfg(rustrtc_verif)]
+        let _verif_before_push_unlock = VerifSchedOnDrop("src_unlock");
 
         let sample = match self.queue.push(sample) {
             Ok(()) => {
@@ -286,7 +290,11 @@ impl SampleStreamSource {
             return Err(MediaError::Closed);
         }
 
+        #[cfg(rustrtc_verif)]
+        crate::verif::sched("src_lock");
         let _push_guard = self.push_lock.lock();
+        #[cfg(rustrtc_verif)]
+        let _verif_before_push_unlock = VerifSchedOnDrop("src_unlock");
         self.queue
             .push(sample)
             .map_err(|_| MediaError::WouldBlock)?;
@@ -359,12 +367,17 @@ pub struct VerifQueueSnapshot {
 #[derive(Clone)]
 pub struct VerifSourceProbe {
     active_senders: Arc<std::sync::atomic::AtomicUsize>,
+    push_lock: Arc<SyncMutex<()>>,
 }
 
 #[cfg(rustrtc_verif)]
 impl VerifSourceProbe {
     pub fn active_senders(&self) -> usize {
         self.active_senders.load(Ordering::SeqCst)
+    }
+
+    pub fn push_locked(&self) -> bool {
+        self.push_lock.is_locked()
     }
 }
 
@@ -388,6 +401,7 @@ impl SampleStreamSource {
     pub fn verif_probe(&self) -> VerifSourceProbe {
         VerifSourceProbe {
             active_senders: self.active_senders.clone(),
+            push_lock: self.push_lock.clone(),
         }
     }
 }
@@ -599,6 +613,8 @@ impl MediaStreamTrack for SampleStreamTrack {
             // Register for wake-ups before looking at any state: `notify_waiters()` (last source
             // dropped, or `stop()`) stores no permit, so one that lands between the checks
             // below and the await would otherwise be lost and this call would sleep forever.
+            #[cfg(rustrtc_verif)]
+            crate::verif::sched("r_create");
             let notified = self.notify.notified();
 
             #[cfg(rustrtc_verif)]
